@@ -81,6 +81,7 @@ type Spec struct {
 	LongChunkSize bool `json:"long_chunk_size,omitempty"` // chunk sizes are written with 16 hex digits (zero padded)
 	ChunkExt      bool `json:"chunk_ext,omitempty"`       // chunked framings: every chunk-size line carries a chunk extension (RFC 7230 4.1.1: recipients ignore unknown ones)
 	Decline       bool `json:"decline,omitempty"`         // Expect framings: carries X-Decline, which the harness engine's ContinueHandler refuses (417); the client sends the body anyway
+	TrListTab     bool `json:"tr_list_tab,omitempty"`     // the trailer is announced in a list whose elements are set off with HTAB ("Trailer: X-Pad,<HTAB>X-Tr")
 	TrUnannounced bool `json:"tr_unannounced,omitempty"`  // FChunkedTrailer without a Trailer header field: the section must be consumed, its delivery is not demanded
 }
 
@@ -265,7 +266,11 @@ func Build(s Spec) ([]byte, Expect) {
 			trName = "X-Tr"
 		}
 		if s.Framing == FChunkedTrailer && !s.TrUnannounced {
-			w.WriteString("Trailer: " + trName + "\r\n")
+			if s.TrListTab {
+				w.WriteString("Trailer: X-Pad,\t" + trName + "\t\r\n")
+			} else {
+				w.WriteString("Trailer: " + trName + "\r\n")
+			}
 		}
 		if s.FoldFraming > 0 {
 			w.WriteString("Transfer-Encoding:\r\n" + FoldIndents[s.FoldFraming] + "chunked\r\n\r\n")
